@@ -122,3 +122,24 @@ function main() -> void {
 
 def lifetime_programs():
     return [(n, LIFETIME_SRC % call) for n, call in LIFETIME]
+
+
+# whole programs: rejected, or exactly this output
+STANDALONE = [
+    ("generic field initialiser copies a handle (double release)",
+     "class P<T> { public T a; public constructor() -> P<T> { } }\n"
+     "class Q<T> { public T c = new P<T>().a; public constructor() -> Q<T> { } }\n"
+     "function mk() -> void { Q<qubit> p = new Q<qubit>(); }\n"
+     "function main() -> void { mk(); qubit n; qubit m; x(n); bit r = measure m; echo(r); }\n", "0\n"),
+    ("generic static field initialiser copies a handle",
+     "class P<T> { public T a; public constructor() -> P<T> { } }\n"
+     "class Q<T> { public static T c = new P<T>().a; public T own; public constructor() -> Q<T> { } }\n"
+     "function mk() -> void { Q<qubit> p = new Q<qubit>(); }\n"
+     "function main() -> void { mk(); qubit n; qubit m; x(n); bit r = measure m; echo(r); }\n", "0\n"),
+    ("rotation by an infinite angle",
+     "function main() -> void { qubit q; float t = 100000000000000000000.0f; t = t * t; t = t * t; t = t * t; t = t * t; t = t * t;\n"
+     "  rx(q, t); qubit p; x(p); bit s = measure p; echo(s); }\n", "1\n"),
+    ("rotation by NaN",
+     "function main() -> void { qubit q; float t = 100000000000000000000.0f; t = t * t; t = t * t; t = t * t; t = t * t; t = t * t; float u = t - t;\n"
+     "  ry(q, u); qubit p; x(p); bit s = measure p; echo(s); }\n", "1\n"),
+]
